@@ -28,7 +28,15 @@ func genTPlan(rt *rapid.T, pairs [][2]int, maxBatches int, withFailing bool) tPl
 			k = 0
 		}
 		for i := 0; i < k; i++ {
-			tb.Tasks = append(tb.Tasks, sTask{ID: fmt.Sprintf("b%d-m%d", b, i), File: fmt.Sprintf("f%d", i), Payload: []byte(fmt.Sprintf("payload %d of batch %d", i, b))})
+			task := sTask{ID: fmt.Sprintf("b%d-m%d", b, i), File: fmt.Sprintf("f%d", i), Payload: []byte(fmt.Sprintf("payload %d of batch %d", i, b))}
+			switch rapid.IntRange(0, 9).Draw(rt, "taskShape") {
+			case 0: // an empty file: a valid message of the batch like any other
+				task.Payload = []byte{}
+			case 1: // the longest names a file system allows (255 bytes) plus the identifier's random tail
+				task.File = strings.Repeat("長", 85)
+				task.ID = fmt.Sprintf("%s_b%dm%d", task.File, b, i)
+			}
+			tb.Tasks = append(tb.Tasks, task)
 		}
 		// up to n-t participants stay silent or fail, so that t correct answers remain possible; sometimes more fail
 		perm := rapid.Permutation(seq(p.N)).Draw(rt, "perm")
@@ -70,6 +78,16 @@ func c07Run(t *testing.T, st *vstat.Stats, p tPlan) *viol {
 	}
 	st.Class(fmt.Sprintf("n=%d,t=%d", p.N, p.T))
 	st.Class(fmt.Sprintf("batches=%d", len(p.Batches)))
+	for _, b := range p.Batches {
+		for _, tk := range b.Tasks {
+			if tk.Payload != nil && len(tk.Payload) == 0 {
+				st.Class("batch-with-an-empty-file")
+			}
+			if len(tk.ID) > 255 {
+				st.Class("batch-with-a-message-id-longer-than-255-bytes")
+			}
+		}
+	}
 	owed := 0
 	for b := range p.Batches {
 		if obs.Accepted[b] && len(obs.Correct[b]) >= p.T && len(p.Batches[b].Failing) <= p.N-p.T {
